@@ -127,6 +127,10 @@ func c18Doc(c *explore.Ctx, s *explore.SubStats, d kitDoc, thorough bool) {
 	if multiset(union) != multiset(full) && !panicked {
 		bad("compose/union "+c18FirstRule(union, full), "the errors of the full set are not the union of the errors of its members", multiset(union), multiset(full))
 	}
+	// the empty rule list reports nothing (it is the union of no rules, not the default set)
+	if got := run([]validator.Rule{}...); len(got) > 0 && !panicked {
+		bad("compose/empty-list rule="+got[0].Rule, "validating with an explicit empty rule list reports errors", "", multiset(got))
+	}
 	// reverse order
 	rev := make([]validator.Rule, len(c18Standard))
 	for i, r := range c18Standard {
